@@ -237,9 +237,9 @@ func (e *Engine) execRangeMap(st *State, n *ast.RangeStmt, cx *Ctx, lc *LoopCont
 			And(Eq(Sel(back.ghost["MapP"], ref), Sel(mapP0, ref)), Eq(Sel(back.ghost["MapV"], ref), Sel(mapV0, ref))), n.Pos(), nil)
 		e.checkSteps(back, iterStart, lc, n.Pos())
 		e.visStack[len(e.visStack)-1] = e.name("visited", Sto(vis, k, I(1)))
-		e.invHead = iterStart
+		e.invHead, e.invHeadVis = iterStart, vis
 		e.checkInvariants(back, lc, "inv-pres", n.Pos())
-		e.invHead = nil
+		e.invHead, e.invHeadVis = nil, T{}
 	}
 	e.visStack = e.visStack[:len(e.visStack)-1]
 	cx.returns = append(cx.returns, inner.returns...)
